@@ -62,7 +62,8 @@ CLAIMS = {
            'resolves clipping to the per-layer class and noise / reduce / step to the distributed one; DPDDP broadcasts from rank 0. PARTIAL for DistributedPerLayerOptimizer (hooks + torch DDP): '
            'with torch\'s accumulate-and-average modelled from observation the release is 2/W times the reference -- equal for two workers (theorem), refuted for W = 3 (Findings/C18.v, '
            'known finding). Real gloo groups of 1-4 CPU ranks (flat / per-layer ew+hooks / ghost, mean / sum, unequal and empty shards, several steps) are compared with a single process on '
-           'the union; probe runs are compared with the generated release on binary64. gloo transport and scheduling are not modelled.'),
+           'the union; probe runs are compared with the generated release on binary64; the ghost adaptive engine is run under DDP with per-rank RNG streams and must hold one clipping norm, one noise '
+           'multiplier and one model on all ranks after every step (one repaired defect). gloo transport and scheduling are not modelled.'),
  },
  'C16': {
   'technique': 'Coq proofs of state_dict / load_state_dict round trips, deep-copy isolation on a heap model, and resumed-run = uninterrupted-run by induction over batch sequences, on code regenerated from accountant.py / privacy_engine.py; real cut-point runs',
